@@ -197,11 +197,13 @@ shrink = C11.shrink
 def generate(rnd, tier, scale):
     # whole records are far bulkier than outcome tuples: fewer, smaller trees in the thorough tier
     if tier == "quick":
-        yield from C11.generate(rnd, tier, scale)
+        for case in C11.generate(rnd, tier, scale):
+            if not RC.has_kind(case["tree"], "filtsrc"):
+                yield case
         return
     n = 0
     for case in C11.generate(rnd, tier, scale):
-        if RC.count_paths(case["tree"]) > 600:
+        if RC.count_paths(case["tree"]) > 600 or RC.has_kind(case["tree"], "filtsrc"):
             continue
         n += 1
         yield case
